@@ -806,19 +806,32 @@ def defaultValuePool : List (Toks × ExprClass × String) :=
 def genDefaultRunCase (seed idx : Nat) : Case := runGen seed idx do
   let isEnum ← chance 1 2
   let useDerive ← chance 1 3
-  let args : Args := { items := [{ trait_ := "Default" }] }
+  -- explicit `bound(..)` lists on any level never change the value (the types are not generic: every bound is trivially true)
+  let someBound : Gen (Option (List BoundArg)) :=
+    pickW [(9, none), (1, some []), (1, some [.dots]), (1, some [.ty (Ty.simple "V")]), (1, some [.ty (Ty.simple "V"), .dots]),
+           (1, some [.pred (.ty [] (Ty.simple "V") [.trait false [] (Ty.simple "Sized")])])]
+  let b1 ← someBound
+  let b2 ← someBound
+  let args : Args := { items := [{ trait_ := "Default", args := b1.map fun b => (some b, false) }], bound := b2 }
   let vF (n : Nat) (kind : FieldsKind) : Gen Fields := do
     let fs ← (List.range n).mapM fun i => do
       let st ← below 10
+      let fb ← someBound
       let attrs ← (if st < 4 then (do
             let (e, cls, _) ← pick defaultValuePool
-            pure [Attr.dflt (.list { value := some (e, cls) })])
+            pure [Attr.dflt (.list { value := some (e, cls), bound := fb })])
           else if st == 4 then pure [Attr.dflt .path]
-          else if st == 5 then pure [Attr.dflt (.list { value := some (["_"], .underscore) })]
+          else if st == 5 then pure [Attr.dflt (.list { value := some (["_"], .underscore), bound := fb })]
           else pure ([] : List Attr))
+      let ib ← someBound
+      let attrs := attrs ++ (match ib with
+        | some b => [Attr.deriveEx { items := [{ trait_ := "Default", args := some (some b, false) }] }]
+        | none => [])
       pure ({ attrs, name := if kind == .named then some (["a", "b", "c", "d"].getD i "z") else none, ty := Ty.simple "V" } : Field)
     pure { kind, fields := fs }
-  let attrs := if useDerive then [Attr.deriveEx args] else []
+  let tb ← someBound
+  let attrs := (if useDerive then [Attr.deriveEx args] else []) ++
+    (match tb with | some b => [Attr.dflt (.list { value := some (["_"], .underscore), bound := some b })] | none => [])
   let item ← (do
     if isEnum then
       let nv ← pickW [(2, 1), (3, 2), (3, 3)]
@@ -827,8 +840,9 @@ def genDefaultRunCase (seed idx : Nat) : Case := runGen seed idx do
         let k ← pickW [(2, FieldsKind.unit), (3, .unnamed), (3, .named)]
         let n ← if k == .unit then pure 0 else pickW [(1, 0), (3, 1), (3, 2), (2, 3)]
         let fields ← if k == .unit then pure { kind := .unit } else vF n k
+        let vb ← someBound
         let mark ← if i == dv && (nv > 1 || (← chance 1 2)) then
-            pick [[Attr.dflt .path], [Attr.dflt (.list { value := some (["_"], .underscore) })]]
+            pick [[Attr.dflt .path], [Attr.dflt (.list { value := some (["_"], .underscore), bound := vb })]]
           else pure []
         pure ({ attrs := mark, name := ["A", "B", "C"].getD i "Z", fields } : Variant)
       pure (Item.enum_ { attrs, name := "X", variants := vs })
